@@ -404,7 +404,8 @@ func (p *parser) error(msg string, offset, endOffset int) {
 func (p *parser) rune(r rune, opts CharsetOptions) charset {
 	p.set = append(p.set[:0], r, r)
 	cs := charset(p.set)
-	if opts.Fold {
+	if opts.Fold && foldable(r, opts) {
+		// Note: there is no case folding for non-ASCII characters in bytes mode.
 		cs.fold(opts.ScanBytes)
 	}
 	return cs
